@@ -30,7 +30,8 @@ Consistent(r) ==
     [] m.v = "rej_ctx"   -> ~r.scanned /\ (r.erridx = r.begins[m.at] \/ r.erridx < r.nextpos[m.at])
     [] m.v = "err_close" -> ~r.scanned /\ r.erridx <= r.begins[m.at]
     [] m.v = "err_eof"   -> ~r.scanned
-    [] OTHER             -> TRUE     \* "(" with nothing pending: outside C06, judged by C01
+    [] m.v = "err_open"  -> ~r.scanned /\ r.erridx <= r.begins[m.at]
+    [] OTHER             -> TRUE
 
 TInit == l = 1 /\ Init
 TNext == l <= Len(Trace) /\ l' = l + 1 /\ UNCHANGED vars
